@@ -57,6 +57,9 @@ static void paint_heap(const char *pat, uint64_t count) {
     }
     static const size_t mul[] = {1, 2, 4, 8, 16};
     for (int d = -3; d <= 3; d += 3) { /* this count, and the counts of the "other count" previous calls */
+        if ((long long)count + d <= 0) {
+            continue;
+        }
         for (int i = 0; i < 5; i++) {
             sizes[ns++] = (size_t)((long long)count + d) * mul[i];
         }
@@ -71,6 +74,9 @@ static void paint_heap(const char *pat, uint64_t count) {
         for (int i = 0; i < ns; i++) {
             size_t sz = sizes[i] ? sizes[i] : 1;
             uint8_t *b = malloc(sz);
+            if (!b) {
+                continue;
+            }
             for (size_t j = 0; j + 8 <= sz; j += 8) {
                 memcpy(b + j, &w, 8);
             }
@@ -110,6 +116,8 @@ static const pcall CALLS[] = {
     {"for", 0, 64, "altbits", 56},    {"for_batch", 0, 64, "altbits", 40}, {"pfor", 95, 64, "altbits", 40},
     {"pfor", 90, 64, "altbits", 56},  {"dict", 0, 64, "nine", 0},       {"group", 0, 9, "altbits", 40},
     {"delta_u", 0, 64, "altbits", 48}, {"rle", 0, 64, "altbits", 40},
+    {"group", 0, 1, "randw", 0},      {"group", 0, 2, "rand8", 0},      {"group", 0, 5, "rand32", 0},
+    {"group", 0, 7, "randw", 0},      {"group", 0, 63, "randw", 0},     {"group", 0, 64, "rand8", 0},
     /* inputs long enough for any "only worth it for large arrays" shortcut */
     {"adaptive", -1, 300, "randw", 0}, {"adaptive", -1, 300, "asc16", 0}, {"adaptive", -1, 300, "cluster", 49},
     {"adaptive", -1, 1000, "fewuniq", 3}, {"for", 0, 300, "rand32", 0}, {"pfor", 95, 1000, "cluster", 49},
@@ -265,7 +273,13 @@ static void run_float_call(size_t ci, const char *sched, const char *proc) {
     float_values(c->shape, n, 1, v);
     size_t room = varintFloatMaxEncodedSize(n, (varintFloatPrecision)prec) + 64;
     uint8_t *dst = malloc(room);
-    memset(dst, 0, room);
+    {
+        uint64_t hs = 1469598103934665603ULL;
+        for (const char *q = sched; *q; q++) {
+            hs = (hs ^ (uint8_t)*q) * 1099511628211ULL;
+        }
+        memset(dst, (int)(hs % 251), room);
+    }
     double *ys = malloc((n + 1) * 8);
     memset(ys, 0, (n + 1) * 8);
     apply_sched(sched, n, ci, float_prev_cb, c);
@@ -377,7 +391,16 @@ static void run_call(size_t ci, const char *sched, const char *proc) {
     size_t bound = bound_of(codec, c->param, xs, x32, n, &exact);
     size_t room = bound + 64 + n * 20;
     uint8_t *dst = malloc(room);
-    memset(dst, 0, room);
+    {
+        /* the destination buffer is context too: what it held before the call
+         * differs from schedule to schedule; only the bytes the encoder
+         * reports as written are compared */
+        uint64_t hs = 1469598103934665603ULL;
+        for (const char *q = sched; *q; q++) {
+            hs = (hs ^ (uint8_t)*q) * 1099511628211ULL;
+        }
+        memset(dst, (int)(hs % 251), room);
+    }
 
     /* apply the schedule */
     char tmp[512];
